@@ -154,7 +154,7 @@ def canaries(prop):
     def one(c):
         c2 = dict(c, expect_violation=[prop], expect_quiet=[])
         return C.run_canary(c2)
-    with concurrent.futures.ThreadPoolExecutor(max_workers=6) as ex:
+    with concurrent.futures.ThreadPoolExecutor(max_workers=4) as ex:
         for r in ex.map(one, cs):
             if r['outcome'] == 'STALE':
                 out['stale'] += 1
